@@ -168,9 +168,10 @@ Theorem C17_helpers : forall c_to_hex c_from_hex,
      cpp_bytes_to_hex c_to_hex junk input upper = chars) /\
   (forall b len, 0 < len -> len <= length b -> cpp_bytes_from_data (Some b) len = CppOk (firstn len b)) /\
   (forall p, cpp_bytes_from_data p 0 = CppOk []) /\
-  (forall chars, cpp_bytes_from_hex c_from_hex chars =
+  (forall chars, (forall w, c_from_hex (length chars / 2) chars = Some w -> length w <= length chars / 2) ->
+     cpp_bytes_from_hex c_from_hex chars =
      match c_from_hex (length chars / 2) chars with
-     | Some w => if length w =? length chars / 2 then w else set_at (zeros (length chars / 2)) 0 w
+     | Some w => w
      | None => []
      end).
 Proof.
